@@ -155,7 +155,6 @@ def case_car(ctx, nc, ns, operator, grouped):
         out = ctx.call("car", v.car, x, operator=operator)
         gv = [0] * nc
         again = ctx.call("car", v.car, x, operator=operator)
-    purity.oblige_untouched(ctx, "car_leaves_its_input_untouched", x, b_x)
     purity.oblige_same_result(ctx, "second_identical_call_gives_the_same_result", out, again)
     if not ctx.oblige("car_shape", tuple(out.shape) == (nc, ns)):
         return
